@@ -256,10 +256,20 @@ RefExpDecay.pow_extra = _ed_pow_extra
 # --------------------------------------------------------------------------
 # case generation (JSON-able spec)
 # --------------------------------------------------------------------------
+def at_bound(rng, lower):
+    """a value AT the lower end of a box: the bound itself, just above it, or within 0.1% of it"""
+    return lower * rng.choice([1.0, 1.0 + 1e-6, 1.0 + 1e-6, 1.0 + 5e-4])
+
+
 def gen_matern(rng, d):
     ard = d > 1 and rng.random() < 0.6
-    return dict(d=d, ard=ard, ibs=[loguniform(rng, 0.3, 6) for _ in range(d if ard else 1)],
-                cs=loguniform(rng, 0.2, 5))
+    ms = dict(d=d, ard=ard, ibs=[loguniform(rng, 0.3, 6) for _ in range(d if ard else 1)],
+              cs=loguniform(rng, 0.2, 5))
+    if rng.random() < 0.2:
+        ms["cs"] = at_bound(rng, 1e-3)                      # COVARIANCE_SCALE_LOWER_BOUND
+    if rng.random() < 0.1:
+        ms["ibs"][rng.randrange(len(ms["ibs"]))] = at_bound(rng, 1e-4)   # INVERSE_BANDWIDTHS_LOWER_BOUND
+    return ms
 
 
 def gen_blocks(rng, d):
@@ -277,6 +287,9 @@ def gen_blocks(rng, d):
     for lo, up in cuts:
         blocks.append(dict(lo=lo, up=up, a=[loguniform(rng, 0.25, 4.0) for _ in range(up - lo)],
                            b=[loguniform(rng, 0.25, 4.0) for _ in range(up - lo)]))
+    if rng.random() < 0.2:      # a warping exponent AT the lower end of its box (WARPING_LOWER_BOUND = 0.25)
+        blk = rng.choice(blocks)
+        blk[rng.choice(["a", "b"])][rng.randrange(len(blk["a"]))] = at_bound(rng, 0.25)
     if rng.random() < 0.15:     # all parameters at their initial value 1: warping ~ identity
         for blk in blocks:
             blk["a"] = [1.0] * len(blk["a"])
@@ -288,8 +301,10 @@ def gen_expdecay(rng, dx):
     low = rng.random() < 0.3       # values near the lower ends of the boxes
     return dict(base=gen_matern(rng, dx), mu=rng.choice([0.0, rng.uniform(-1, 1)]),
                 alpha=loguniform(rng, 1e-3, 0.05) if low else loguniform(rng, 0.2, 5),
-                mean_lam=loguniform(rng, 2e-4, 5e-3) if low else loguniform(rng, 0.05, 5),
-                gamma=loguniform(rng, 2e-4, 5e-3) if low else rng.uniform(0.05, 0.95),
+                mean_lam=(at_bound(rng, 1e-4) if rng.random() < 0.3 else loguniform(rng, 2e-4, 5e-3)) if low
+                else loguniform(rng, 0.05, 5),
+                gamma=(at_bound(rng, 1e-4) if rng.random() < 0.3 else loguniform(rng, 2e-4, 5e-3)) if low
+                else rng.uniform(0.05, 0.95),
                 delta=rng.choice([None, 0.0, 1.0, rng.uniform(0.05, 0.95)]), delta_free=rng.uniform(0.05, 0.95))
 
 
@@ -364,6 +379,11 @@ ENC_TOL = {"logarithm": 16 * EPS, "positive": 1e-12}
 _enc = ["logarithm"]          # encoding of the kernel currently being built (set by build)
 
 
+def _req(v, lower):
+    """the value actually requested: the positive encoding is only defined strictly above the bound"""
+    return lower * (1.0 + 1e-6) if (_enc[0] == "positive" and v <= lower) else v
+
+
 def check_installed(issues, label, got, intended):
     """every hyper-parameter read back through the public get_params equals the requested value (the encodings
     move a value by at most a few ulp)"""
@@ -391,11 +411,11 @@ def check_roundtrip(issues, label, obj, fresh):
 
 
 def matern_params(ms):
-    prm = {"covariance_scale": ms["cs"]}
+    prm = {"covariance_scale": _req(ms["cs"], 1e-3)}
     if ms["d"] == 1 or not ms["ard"]:
-        prm["inv_bw"] = ms["ibs"][0]
+        prm["inv_bw"] = _req(ms["ibs"][0], 1e-4)
     else:
-        prm.update({"inv_bw%d" % i: v for i, v in enumerate(ms["ibs"])})
+        prm.update({"inv_bw%d" % i: _req(v, 1e-4) for i, v in enumerate(ms["ibs"])})
     return prm
 
 
@@ -412,8 +432,9 @@ def build_matern(ms, how="dict", issues=None):
         k.set_params(dict(prm))      # the public dict interface (what model / likelihood set_params route to)
     else:                            # directly on the parameter objects
         sd = k.squared_distance
-        sd.encoding.set(sd.inverse_bandwidths_internal, list(ms["ibs"]) if ms["ard"] and ms["d"] > 1 else [ms["ibs"][0]])
-        k.encoding.set(k.covariance_scale_internal, ms["cs"])
+        sd.encoding.set(sd.inverse_bandwidths_internal,
+                        [_req(v, 1e-4) for v in ms["ibs"]] if ms["ard"] and ms["d"] > 1 else [_req(ms["ibs"][0], 1e-4)])
+        k.encoding.set(k.covariance_scale_internal, _req(ms["cs"], 1e-3))
     got = k.get_params()
     if issues is not None:
         check_installed(issues, "Matern52(d=%d, ARD=%s) via %s" % (ms["d"], ms["ard"], how), got, prm)
@@ -436,13 +457,13 @@ def build_warped(kernel, ref, blocks, d, how="dict", issues=None, fresh_inner=No
         size = b["up"] - b["lo"]
         for kind in ("a", "b"):
             for j in range(size):
-                prm[pname(i, size, kind, j)] = b[kind][j]
+                prm[pname(i, size, kind, j)] = _req(b[kind][j], 0.25)
     if how == "dict":
         wk.set_params(dict(prm))     # public setter; routes by prefix to kernel and to each Warping block
     else:
         for w_, b in zip(warpings, blocks):
-            w_.encoding.set(w_.power_a_internal, list(b["a"]))
-            w_.encoding.set(w_.power_b_internal, list(b["b"]))
+            w_.encoding.set(w_.power_a_internal, [_req(v, 0.25) for v in b["a"]])
+            w_.encoding.set(w_.power_b_internal, [_req(v, 0.25) for v in b["b"]])
     got = wk.get_params()
     if issues is not None:
         check_installed(issues, "WarpedKernel(%d blocks) via %s" % (len(blocks), how), got, prm)
@@ -480,7 +501,7 @@ def build_expdecay(ed, how, issues):
     prm = {"kernelx_" + k_: float(v) for k_, v in k0.get_params().items()}
     if ed["mu"] != 0.0:
         prm["meanx_mean_value"] = mu
-    prm.update(alpha=ed["alpha"], mean_lam=ed["mean_lam"], gamma=ed["gamma"])
+    prm.update(alpha=ed["alpha"], mean_lam=_req(ed["mean_lam"], 1e-4), gamma=_req(ed["gamma"], 1e-4))
     if ed["delta"] is None:
         prm["delta"] = ed["delta_free"]
     kern.set_params(dict(prm))
@@ -934,6 +955,10 @@ def gen_seq(rng, k):
     def params():
         prm = dict(noise_variance=loguniform(rng, 1e-4, 1.0), kernel_covariance_scale=loguniform(rng, 0.2, 5),
                    mean_mean_value=rng.uniform(-1, 1))
+        if rng.random() < 0.25:
+            prm["kernel_covariance_scale"] = at_bound(rng, 1e-3)
+        if rng.random() < 0.15:
+            prm["noise_variance"] = at_bound(rng, 1e-9)
         if ard:
             prm.update({"kernel_inv_bw%d" % i: loguniform(rng, 0.2, 5) for i in range(d)})
         else:
@@ -998,6 +1023,13 @@ def run_seq(ctx, spec, sq_cases=None, sq_meta=None):
             prm = model.get_params()
             prm.update(o["params"])
             model.set_params(prm)
+            back = model.get_params()
+            bad_ = [k_ for k_, v in o["params"].items()
+                    if not abs(float(back[k_]) - float(v)) <= 16 * EPS * max(abs(float(v)), 1e-300)]
+            if bad_:
+                viol("set_params(%s) reads back as %s" % ({k_: o["params"][k_] for k_ in bad_[:3]},
+                                                          {k_: float(back[k_]) for k_ in bad_[:3]}),
+                     "param_roundtrip", "set_params#%d" % i)
             steps.append("(GSet NumF %s, None)" % gparams())
             continue
         if op == "reset_params":
